@@ -6,6 +6,9 @@ for d in /verif/seeded/C*-[A-Z]; do
   k=$(basename $d); P=${k%-*}
   if [ "$k" = "C12-B" ]; then
     /verif/tools/mutcheck.sh seed-$k $P /verif/mutants/seed-c12-B-on-prefix-tree.sh $scale layout 2>&1 | tail -1
+  elif [ "$k" = "C11-A" ]; then
+    # acd6c0e rewrote the tail of insert-sorted; the same change ported to the current tree
+    /verif/tools/mutcheck.sh seed-$k $P /verif/mutants/seed-c11-A-on-current-tree.sh $scale 2>&1 | tail -1
   else
     /verif/tools/mutcheck.sh seed-$k $P $d/patch.diff $scale 2>&1 | tail -1
   fi
